@@ -3,7 +3,7 @@
    call, no other event; execute_command then leaves connection and server state as they were (C05/ConnFacts), the
    reply is an error frame (C04) and the loop goes on with the next request (C03). *)
 From Coq Require Import String.
-From GR Require Import Base Resp Handler Exec Conn Grammar GrammarFacts GrammarMal.
+From GR Require Import Base Resp Handler Exec Conn Grammar GrammarFacts GrammarMal FloatFacts.
 
 Section C10.
   Variable hstate : Type.
@@ -147,3 +147,14 @@ Example C10_ex :
   rej (x_LRANGE unit h c (map bulk [B"k"; B"1.5"; B"2"]) s0) /\
   rej (x_ZADD unit h c (map bulk [B"k"; B"1"; B"a"; B"2"]) s0).
 Proof. vm_compute. repeat split; reflexivity. Qed.
+
+(* a token with a digit separator ("1_0", "(1_0": what Go's strconv.ParseFloat reads as 10) is not a float of the argument
+   grammar, plain or as a range bound; with the theorems above (nofloat / norange / parse_float t = None) such a score,
+   increment or bound is therefore refused without a handler call (fix 9df90cc) *)
+Theorem C10_digit_separators_are_not_floats : forall s, In 95%N s -> parse_float s = None /\ parse_range_score s = None.
+Proof. intros s H. split; [exact (parse_float_no_digit_separator s H)|exact (parse_range_score_no_digit_separator s H)]. Qed.
+Print Assumptions C10_digit_separators_are_not_floats.
+
+Example C10_ex_digit_separator :
+  parse_float [49; 95; 48]%N = None /\ parse_range_score [40; 49; 95; 48]%N = None /\ parse_float [49; 48]%N = Some (FNum (QArith_base.Qmake 10 1)).
+Proof. exact digit_separator_tokens. Qed.
